@@ -10,6 +10,8 @@
 //                                a real coder initialised through its public init function; its code function is
 //                                wrapped by a recording shim (extras: inner=c,p,r)
 //   reinit stub <mask> <flags>   initialise again WITHOUT lzma_end (lzma_strm_init on a live handle)
+//   reinit real <api> ...        the same with a real coder (any of the 18 public init functions); the application
+//                                resets next_in/avail_in/next_out/avail_out (the buffer regions are replaced)
 //   call <action> <in> <out> <resv> <tot> <c> <p> <r>
 //        in/out: k | s:<off>:<len> | n:<len> | d:+<x> | d:-<x> | z:<len> (in only: seek to strm->seek_pos)
 //        resv:   - | <idx 0..8>:<value>      (all reserved members default except that one)
@@ -148,7 +150,8 @@ static void print_new(const char *op, lzma_ret ret)
 static void set_mask(unsigned mask)
 {
 	for (unsigned a = 0; a <= LZMA_ACTION_MAX; ++a)
-		strm.internal->supported_actions[a] = (mask >> a) & 1;
+		if ((mask >> a) & 1)
+			strm.internal->supported_actions[a] = true;
 }
 
 static lzma_ret do_stub_init(unsigned mask, unsigned flags)
@@ -183,9 +186,46 @@ static lzma_index *make_index(void)
 	return i;
 }
 
-// new real <api> <variant> <datalen> <insz> <outsz> <corrupt>
-static bool new_real(const char *api, unsigned variant, size_t datalen, size_t insz, size_t outsz, long corrupt, lzma_ret *retp)
+// Builds one lzip member around a raw LZMA1 stream (lc3 lp0 pb2, 64 KiB dictionary, end marker).
+static size_t make_lzip(const uint8_t *plain, size_t n, uint8_t *out, size_t cap)
 {
+	if (cap < 64) { fprintf(stderr, "lzip cap\n"); exit(3); }
+	lzma_options_lzma o;
+	if (lzma_lzma_preset(&o, 0)) abort();
+	o.dict_size = 1u << 16; o.lc = 3; o.lp = 0; o.pb = 2;
+	lzma_filter f[2] = { { .id = LZMA_FILTER_LZMA1, .options = &o }, { .id = LZMA_VLI_UNKNOWN, .options = NULL } };
+	memcpy(out, "LZIP", 4); out[4] = 1; out[5] = 0x10;
+	lzma_stream t = LZMA_STREAM_INIT;
+	if (lzma_raw_encoder(&t, f) != LZMA_OK) abort();
+	size_t pos = 6 + run_to_end(&t, plain, n, out + 6, cap - 26);
+	const uint32_t crc = lzma_crc32(plain, n, 0);
+	for (unsigned i = 0; i < 4; ++i) out[pos++] = (uint8_t)(crc >> (8 * i));
+	for (unsigned i = 0; i < 8; ++i) out[pos++] = (uint8_t)((uint64_t)n >> (8 * i));
+	const uint64_t member = pos + 8;
+	for (unsigned i = 0; i < 8; ++i) out[pos++] = (uint8_t)(member >> (8 * i));
+	return pos;
+}
+
+static lzma_block blk_enc, blk_dec;
+
+// new|reinit real <api> <variant> <datalen> <insz> <outsz> <corrupt>
+// fresh: the handle is LZMA_STREAM_INIT. Otherwise the LIVE handle is initialised again for this coder without
+// lzma_end() (allowed by the API); the application also resets its four buffer members because the regions change.
+static bool new_real(bool fresh, const char *api, unsigned variant, size_t datalen, size_t insz, size_t outsz, long corrupt, lzma_ret *retp)
+{
+	if (!fresh) {
+		// undo the recording shim so that the library sees its own function pointer again
+		if (strm.internal != NULL && real_code != NULL)
+			strm.internal->next.code = real_code;
+		strm.next_in = NULL; strm.avail_in = 0;
+		strm.next_out = NULL; strm.avail_out = 0;
+	}
+	real_code = NULL;
+	stub = NULL;
+	lzma_index *const old_enc_index = enc_index;
+	enc_index = NULL;
+	lzma_index_end(fi_index, NULL);
+	fi_index = NULL;
 	region_make(&rin, insz, 0xC3);
 	region_make(&rout, outsz, 0x3C);
 	memset(rin.data, 0, insz);
@@ -200,7 +240,8 @@ static bool new_real(const char *api, unsigned variant, size_t datalen, size_t i
 	filters[1].id = LZMA_VLI_UNKNOWN; filters[1].options = NULL;
 	mt_opts = (lzma_mt){ .flags = 0, .threads = 2, .block_size = 256, .timeout = 1, .preset = 0, .filters = filters,
 			.check = LZMA_CHECK_CRC32, .memlimit_threading = UINT64_MAX, .memlimit_stop = UINT64_MAX };
-	strm = (lzma_stream)LZMA_STREAM_INIT;
+	if (fresh)
+		strm = (lzma_stream)LZMA_STREAM_INIT;
 	size_t enc = 0;        // size of the encoded input placed in rin (decoders)
 	lzma_ret ret = LZMA_PROG_ERROR;
 	bool is_dec = false;
@@ -224,6 +265,10 @@ static bool new_real(const char *api, unsigned variant, size_t datalen, size_t i
 	} else if (!strcmp(api, "lzma_microlzma_encoder")) {
 		memcpy(rin.data, plain, datalen);
 		ret = lzma_microlzma_encoder(&strm, &opt_lzma);
+	} else if (!strcmp(api, "lzma_block_encoder")) {
+		memcpy(rin.data, plain, datalen);
+		blk_enc = (lzma_block){ .version = 0, .check = LZMA_CHECK_CRC32, .filters = filters };
+		ret = lzma_block_encoder(&strm, &blk_enc);
 	} else if (!strcmp(api, "lzma_index_encoder")) {
 		enc_index = make_index();
 		ret = lzma_index_encoder(&strm, enc_index);
@@ -237,6 +282,25 @@ static bool new_real(const char *api, unsigned variant, size_t datalen, size_t i
 			if (lzma_raw_encoder(&tmp, filters) != LZMA_OK) abort();
 			enc = run_to_end(&tmp, plain, datalen, rin.data, insz);
 			ret = lzma_raw_decoder(&strm, filters);
+		} else if (!strcmp(api, "lzma_block_decoder")) {
+			uint8_t *tmpbuf = malloc(insz + 64);
+			if (tmpbuf == NULL) abort();
+			size_t pos = 0;
+			blk_dec = (lzma_block){ .version = 0, .check = LZMA_CHECK_CRC32, .filters = filters };
+			if (lzma_block_buffer_encode(&blk_dec, NULL, plain, datalen, tmpbuf, &pos, insz + 64) != LZMA_OK) { fprintf(stderr, "block encode\n"); exit(3); }
+			enc = pos - blk_dec.header_size;
+			if (enc > insz) { fprintf(stderr, "block too big\n"); exit(3); }
+			memcpy(rin.data, tmpbuf + blk_dec.header_size, enc);
+			free(tmpbuf);
+			ret = lzma_block_decoder(&strm, &blk_dec);
+		} else if (!strcmp(api, "lzma_microlzma_decoder")) {
+			if (datalen == 0) { free(plain); return false; }
+			if (lzma_microlzma_encoder(&tmp, &opt_lzma) != LZMA_OK) abort();
+			enc = run_to_end(&tmp, plain, datalen, rin.data, insz);
+			ret = lzma_microlzma_decoder(&strm, enc, datalen, true, 1u << 16);
+		} else if (!strcmp(api, "lzma_lzip_decoder")) {
+			enc = make_lzip(plain, datalen, rin.data, insz);
+			ret = lzma_lzip_decoder(&strm, UINT64_MAX, 0);
 		} else if (!strcmp(api, "lzma_index_decoder")) {
 			lzma_index *i = make_index();
 			if (lzma_index_buffer_encode(i, rin.data, &enc, insz) != LZMA_OK) { fprintf(stderr, "index encode\n"); exit(3); }
@@ -265,6 +329,7 @@ static bool new_real(const char *api, unsigned variant, size_t datalen, size_t i
 		}
 	}
 	free(plain);
+	lzma_index_end(old_enc_index, NULL);
 	file_size = enc;
 	if (is_dec && corrupt >= 0 && (size_t)corrupt < enc)
 		rin.data[corrupt] ^= 0x5A;
@@ -459,7 +524,7 @@ int main(int argc, char **argv)
 				end_stream();
 				strm = (lzma_stream)LZMA_STREAM_INIT;
 				kind = K_NONE;
-			} else if (kind == K_NONE || strcmp(k, "stub")) {
+			} else if (kind == K_NONE || (strcmp(k, "stub") && strcmp(k, "real"))) {
 				printf("bad-op reinit\n");
 				continue;
 			}
@@ -470,6 +535,8 @@ int main(int argc, char **argv)
 					for (size_t i = 0; i < 64; ++i) rin.data[i] = (uint8_t)(i * 131 + 7);
 					memset(rout.data, 0x55, 64);
 				}
+				if (strm.internal != NULL && real_code != NULL)
+					strm.internal->next.code = real_code;   // undo the recording shim first
 				real_code = NULL;
 				const lzma_ret ret = do_stub_init((unsigned)hp_u64(l.tok[2]), (unsigned)hp_u64(l.tok[3]));
 				kind = K_STUB;
@@ -491,7 +558,7 @@ int main(int argc, char **argv)
 				printf("\n");
 			} else if (!strcmp(k, "real") && l.ntok == 8) {
 				lzma_ret ret = LZMA_PROG_ERROR;
-				if (!new_real(l.tok[2], (unsigned)hp_u64(l.tok[3]), (size_t)hp_u64(l.tok[4]), (size_t)hp_u64(l.tok[5]),
+				if (!new_real(fresh, l.tok[2], (unsigned)hp_u64(l.tok[3]), (size_t)hp_u64(l.tok[4]), (size_t)hp_u64(l.tok[5]),
 						(size_t)hp_u64(l.tok[6]), strtol(l.tok[7], NULL, 10), &ret)) {
 					printf("bad-op real\n");
 					continue;
